@@ -147,18 +147,28 @@ class Ctx:
         print("[%s %6.1fs]" % (self.pid, time.time() - self.t0), *a, flush=True)
 
     # ---------------------------------------------------------------- tables
-    def tables_tool(self):
-        with Lock("tables-build"):
-            out = os.path.join(WORK, "bin", "tables")
-            rc, log = sh([go_cmd(), "build", "-o", out, "./tables"], cwd=os.path.join(VERIF, "gen"),
-                         env=go_env(), timeout=600)
+    def tables_tool(self, group=None):
+        """Build the translator. With a group, only main.go, lib*.go and <group>*.go are compiled, so a
+        half-written file of another group cannot break this group's check."""
+        import glob as _glob
+        tdir = os.path.join(VERIF, "gen", "tables")
+        with Lock("tables-build-" + (group or "all")):
+            out = os.path.join(WORK, "bin", "tables" + ("-" + group if group else ""))
+            if group:
+                files = [os.path.join(tdir, "main.go")] + sorted(_glob.glob(os.path.join(tdir, "lib*.go"))) + \
+                    sorted(_glob.glob(os.path.join(tdir, group + "*.go")))
+                files = [f for f in files if not f.endswith("_test.go")]
+                cmd = [go_cmd(), "build", "-o", out] + files
+            else:
+                cmd = [go_cmd(), "build", "-o", out, "./tables"]
+            rc, log = sh(cmd, cwd=os.path.join(VERIF, "gen"), env=go_env(), timeout=600)
             if rc != 0:
                 raise RuntimeError("building gen/tables failed:\n" + log)
             return out
 
     def tables(self, group, name="Tables.v"):
         """Regenerate the group's Tables.v from self.repo. Returns (ok, message)."""
-        tool = self.tables_tool()
+        tool = self.tables_tool(group)
         out = os.path.join(VERIF, "coq", group, name)
         rc, log = sh([tool, "-repo", self.repo, "-group", group, "-out", out], timeout=120)
         if rc != 0:
